@@ -13,7 +13,8 @@
 //!   Cr / Cf (tcp, unix) a client completes the transport-level connect and is gone before the server
 //!        accepts it: Cr resets (SO_LINGER 0 close; unix: plain close), Cf closes (FIN).  Blocking std
 //!        connect + drop, synchronously, so the dead connection sits in the listen backlog; logged C<c> F<c>
-//!   U  (unix) connect from a socket bound to a non-UTF-8 path; behaves like C1
+//!   U  (unix) connect from a socket bound to a non-UTF-8 path (even client index) or to an abstract-namespace
+//!      address (odd client index); behaves like C1
 //!   L  lose the listener (drop every client handle; duplex only)   M  arm a make-service failure
 //!   G  fire the shutdown signal (mode g)                  S  settle (run everything to quiescence)
 //!   K<n> (mode g) arm: the make-service future resolves the shutdown signal while it admits the (n+1)-th
@@ -462,7 +463,12 @@ impl World {
                 let path = path.clone();
                 let n = c;
                 Box::pin(async move {
-                    if odd_path {
+                    if odd_path && n % 2 == 1 {
+                        // a client bound to a Linux abstract-namespace address ("\0name"): no pathname at all
+                        let sock = tokio::net::UnixSocket::new_stream()?;
+                        sock.bind(format!("\0hd-verif-{}-{}", std::process::id(), n))?;
+                        sock.connect(&path).await.map(|s| Box::new(s) as BoxIo)
+                    } else if odd_path {
                         use std::os::unix::ffi::OsStrExt;
                         let mut name = b"cl\xff".to_vec();
                         name.extend_from_slice(format!("{n}.sock").as_bytes());
